@@ -20,6 +20,10 @@ impl cmp::PartialOrd for Factors {
 /// stops descending into new ones.
 const MAX_EXPLORED: usize = 10_000;
 
+/// How many quantities a product may have. The search recurses once per
+/// factor, `factorize m^22000` must not run out of stack.
+const MAX_FACTORS: usize = 50;
+
 pub fn factorize(
     value: &Number,
     quantities: &BTreeMap<Dimensionality, Rc<String>>,
@@ -34,7 +38,7 @@ pub fn factorize(
         value: Numeric::one(),
         unit: value.unit.clone(),
     };
-    factorize_memo(value, quantities, &mut memo)
+    factorize_memo(value, quantities, &mut memo, 0)
         .into_iter()
         .collect()
 }
@@ -43,6 +47,7 @@ fn factorize_memo(
     value: &Number,
     quantities: &BTreeMap<Dimensionality, Rc<String>>,
     memo: &mut BTreeMap<Dimensionality, Vec<(usize, Vec<Rc<String>>)>>,
+    depth: usize,
 ) -> Vec<Factors> {
     if let Some(known) = memo.get(&value.unit) {
         return known
@@ -54,10 +59,10 @@ fn factorize_memo(
     // exponents (`factorize m^12 kg^3 s^-7 A^2` would visit millions), so
     // stop looking at new ones at some point. Every named quantity needs
     // fewer than 2000.
-    if memo.len() >= MAX_EXPLORED {
+    if memo.len() >= MAX_EXPLORED || depth >= MAX_FACTORS {
         return vec![];
     }
-    let result = factorize_inner(value, quantities, memo).into_vec();
+    let result = factorize_inner(value, quantities, memo, depth).into_vec();
     memo.insert(
         value.unit.clone(),
         result
@@ -72,6 +77,7 @@ fn factorize_inner(
     value: &Number,
     quantities: &BTreeMap<Dimensionality, Rc<String>>,
     memo: &mut BTreeMap<Dimensionality, Vec<(usize, Vec<Rc<String>>)>>,
+    depth: usize,
 ) -> BinaryHeap<Factors> {
     if value.dimless() {
         let mut map = BinaryHeap::new();
@@ -92,7 +98,7 @@ fn factorize_inner(
         if score >= value_score {
             continue;
         }
-        let res = factorize_memo(&res, quantities, memo);
+        let res = factorize_memo(&res, quantities, memo, depth + 1);
         for Factors(score, mut vec) in res {
             vec.push(name.clone());
             vec.sort();
